@@ -70,3 +70,40 @@ def run(ctx, pid, mod):
                 ctx.violation("SELFTEST", name + "|seed-not-detected", "seeded/%s/patch.diff" % name, "the rules are silent on a stored seeded regression of this property: the checker lost strength")
         finally:
             shutil.rmtree(tmp, ignore_errors=True)
+
+
+def base_check(ctx, pid, mod):
+    """The defects repaired by fix: commits must still be *detectable*: run the rules on the original tree
+    (git archive of the pinned base commit) and require every expected key to be reported."""
+    path = os.path.join(VERIF, "selftest_base_expected.json")
+    if not os.path.exists(path):
+        return
+    spec = json.load(open(path))
+    want = spec["expected"].get(pid)
+    if not want:
+        return
+    ctx.rule("SELFTEST-BASE", "on the original tree (commit %s) the rules report every defect that was later repaired" % spec["base_commit"])
+    tmp = tempfile.mkdtemp(prefix="sgbase_", dir="/var/tmp")
+    try:
+        tar = subprocess.Popen(["git", "-C", factsmod.REPO, "archive", spec["base_commit"]], stdout=subprocess.PIPE)
+        rc = subprocess.call(["tar", "-x", "-C", tmp], stdin=tar.stdout)
+        tar.wait()
+        if rc != 0 or tar.returncode != 0:
+            ctx.note("self-test base: commit %s is not available in /repo's history (skipped)" % spec["base_commit"])
+            return
+        fdir = factsmod.extract(repo=tmp, tier="quick")
+        F = factsmod.Facts(fdir)
+        probe = _Probe(pid, F)
+        probe.known = set()
+        try:
+            mod.run(probe, F, CallGraph(F))
+        except Exception as e:
+            probe.violations.append("checker|crash|%s" % type(e).__name__)
+        got = set(probe.violations)
+        missing = [k for k in want if k not in got]
+        if missing:
+            ctx.violation("SELFTEST-BASE", "missed-on-base|" + missing[0], "selftest_base_expected.json", "on the original tree the rules no longer report %d repaired defect(s): %s" % (len(missing), missing[:4]))
+        else:
+            ctx.ok("SELFTEST-BASE", "all-repaired-defects-detected", "%d expected reports present on the original tree" % len(want))
+    finally:
+        shutil.rmtree(tmp, ignore_errors=True)
